@@ -6,7 +6,7 @@
 //! invariant named / present at the audited baseline), or a finding. Recursion
 //! classes (SCCs of the call graph) and non-iterator loops are audited likewise.
 use crate::mir::{Body, Facts};
-use crate::model::{self, Model};
+use crate::model::{self, tok, Model};
 use crate::report::Ctx;
 use serde_json::{json, Value};
 use std::collections::{BTreeMap, BTreeSet};
@@ -367,6 +367,56 @@ This decides `no new unaudited panic/recursion/loop site`, the enumerated necess
 
     // ---------------- loops (syntactic) ----------------
     loops(m, ctx);
+    withdraw(m, ctx);
+}
+
+/// C08.withdraw: the linking steps of Validator::link hand `&self.tlds` to resolvers that chase references through the
+/// map without a visited set (audit classes baseline/finding). What keeps a definition from being resolved *through
+/// itself* is that every step first takes the current definition out of the map (remove / remove_entry) and puts it
+/// back afterwards; a step that works on a copy while the original stays visible loses that guard.
+fn withdraw(m: &Model, ctx: &mut Ctx) {
+    let Some(f) = m.fns.iter().find(|f| f.name == "link" && f.self_ty.as_deref() == Some("Validator")) else {
+        ctx.fail_closed("C08.withdraw", "anchor not found: Validator::link");
+        return;
+    };
+    struct W {
+        body: Option<syn::Block>,
+    }
+    impl model::DeepCb for W {
+        fn expr(&mut self, e: &syn::Expr) {
+            if let syn::Expr::While(w) = e {
+                if self.body.is_none() && tok(&w.cond).contains("keys.pop()") {
+                    self.body = Some(w.body.clone());
+                }
+            }
+        }
+    }
+    let mut w = W { body: None };
+    model::deep_walk_block(&f.block, &mut w);
+    let Some(body) = w.body else {
+        ctx.fail_closed("C08.withdraw", "Validator::link: the loop over the popped keys was not found");
+        return;
+    };
+    let steps = ["resolve_object_set_references", "resolve_class_reference", "link_components_of_notation", "link_choice_selection_type", "link_object_set_reference", "link_constraint_reference", "collect_supertypes", "mark_recursive"];
+    let mut seen = 0;
+    for st in &body.stmts {
+        let blk = syn::Block { brace_token: Default::default(), stmts: vec![st.clone()] };
+        let called: Vec<String> = model::method_calls_in(&blk).iter().map(|mc| mc.method.to_string()).filter(|n| steps.contains(&n.as_str())).collect();
+        if called.is_empty() {
+            continue;
+        }
+        let t = tok(st);
+        for c in called.iter().collect::<BTreeSet<_>>() {
+            seen += 1;
+            ctx.oblige("C08.withdraw", c, true);
+            let withdrawn = t.contains("self.tlds.remove_entry(&key)") || t.contains("self.tlds.remove(&key)");
+            if !withdrawn {
+                ctx.violate("C08.withdraw", &format!("step-on-visible-definition:{}", c), &f.file, model::line_of(syn::spanned::Spanned::span(st)),
+                    &format!("the step of Validator::link that runs `{}` no longer takes the current definition out of the map first: the resolver is handed a map in which the definition being resolved is still visible, so a definition that refers to itself is resolved through itself without end (stack exhaustion)", c));
+            }
+        }
+    }
+    ctx.floor("C08.withdraw/steps", seen, 8);
 }
 
 /// `loop {}` and `while cond {}` / `while let` not driven by an iterator's next()/pop() are listed and audited.
